@@ -49,3 +49,16 @@ def c02_entrez_api_zero(failure, finding):
 def c02_hash_first_column(failure, finding):
     """A scheme-less column set whose first column name starts with '#': its column-name line is read as a header line."""
     return failure.get("first_column_starts_with_hash") is True and failure.get("scheme") is None
+
+
+def c03_nonstrict_sorting_writer_close(failure, finding):
+    """A Silent / Lenient SORTING writer (assume_sorted=False under a sortable order) whose close() raises the format
+    exception: the queued records are re-parsed by the sorter's codec, which is hard-wired to Strict.  Identified by the
+    call site alone - writing entry point, sorting writer, the exception raised by close() (never by open or write) in
+    a non-strict mode - so that a non-strict writer failing anywhere else, or an unsorted one failing at all, is still
+    reported."""
+    if failure.get("kind") != "nonstrict-raises" or failure.get("entry") != "write" or failure.get("sorting") is not True:
+        return False
+    stages = failure.get("stages") or {}
+    bad = [m for m in ("Silent", "Lenient") if m in stages]
+    return bool(bad) and all(stages[m] == "close" for m in bad) and str(failure.get("got", "")).startswith("MafFormatException")
